@@ -288,6 +288,19 @@ impl ZonedDateTime {
         let start = self.tz.get_iso_datetime_for(&self.instant, provider)?;
         // 3. Let endDateTime be GetISODateTimeFor(timeZone, ns2).
         let end = self.tz.get_iso_datetime_for(&other.instant, provider)?;
+        // If CompareISODate(startDateTime.[[ISODate]], endDateTime.[[ISODate]]) = 0, then
+        // the two instants lie on the same local calendar day: the difference is pure
+        // elapsed time (re-resolving the start's wall-clock time would pick the wrong
+        // occurrence of a repeated time).
+        if start.date == end.date {
+            // a. Let timeDuration be TimeDurationFromEpochNanosecondsDifference(ns2, ns1).
+            let time_duration = NormalizedTimeDuration::from_nanosecond_difference(
+                other.epoch_nanoseconds().as_i128(),
+                self.epoch_nanoseconds().as_i128(),
+            )?;
+            // b. Return CombineDateAndTimeDuration(ZeroDateDuration(), timeDuration).
+            return NormalizedDurationRecord::new(Default::default(), time_duration);
+        }
         // 4. If ns2 - ns1 < 0, let sign be -1; else let sign be 1.
         let sign = if other.epoch_nanoseconds().as_i128() - self.epoch_nanoseconds().as_i128() < 0 {
             Sign::Negative
